@@ -32,9 +32,16 @@ def tours(edges, init_key=None, max_len=400):
     tk = [key(e["to"]) for e in edges]
     out = collections.defaultdict(list)   # state -> list of edge indices
     succ = collections.defaultdict(dict)  # state -> {successor state: one edge index}
+    # a (state, call) pair with several possible successors is nondeterministic in the model (e.g. tie
+    # breaking): the implementation may pick any of them, so nothing can be scheduled after such a call
+    ak = [key(e["act"]) for e in edges]
+    fan = collections.defaultdict(set)
+    for i in range(len(edges)):
+        fan[(fk[i], ak[i])].add(tk[i])
+    nondet = [len(fan[(fk[i], ak[i])]) > 1 for i in range(len(edges))]
     for i in range(len(edges)):
         out[fk[i]].append(i)
-        if tk[i] != fk[i]:
+        if tk[i] != fk[i] and not nondet[i]:
             succ[fk[i]].setdefault(tk[i], i)
     if init_key is None:
         init_key = fk[0]
@@ -68,6 +75,9 @@ def tours(edges, init_key=None, max_len=400):
             remaining -= 1
             scen.append(edges[ei]["act"])
             cur = tk[ei]
+            if nondet[ei]:       # end the scenario here
+                scenarios.append(scen)
+                scen, cur = [], init_key
             continue
         path = nearest(cur) if len(scen) < max_len else None
         if path is None or len(scen) + len(path) >= max_len:
